@@ -62,13 +62,25 @@ def dead_loop_slice(j):
 
 def sub_from_slice(j, sl, variant, rng):
     ops = {g[0]: (g[1], list(g[2])) for g in j['gates']}
-    ren = (lambda l: l) if variant == 'identical' else (lambda l: 'r_' + l)
+    ren = (lambda l: l) if variant == 'identical' else (lambda l: 'r_' + l)   # ('clash' is a renamed copy too)
     # 'entangled' is a renamed copy whose outputs also read an unrelated frontier gate
     gates = [[ren(l), 'INPUT', []] for l in sl['frontier']]
     for l in sl['interior']:
         t, o = ops[l]
         gates.append([ren(l), t, [ren(x) for x in o]])
     outs = [ren(l) for l in sl['outs']]
+    if variant == 'clash':
+        # like 'reexpressed', but the first inner gate of the replacement carries the label of a gate of the host that
+        # lies outside the slice: the call has to refuse (the label exists) or at least must not disturb that gate
+        taken = set(sl['frontier']) | set(sl['interior']) | set(sl['outs'])
+        bystanders = [g[0] for g in j['gates'] if g[0] not in taken and not g[0].startswith('r_')]
+        new_outs = []
+        for k, o in enumerate(outs):
+            inner = rng.choice(bystanders) if (k == 0 and bystanders) else f'dn1_{k}'
+            gates.append([inner, 'NOT', [o]])
+            gates.append([f'dn2_{k}', 'NOT', [inner]])
+            new_outs.append(f'dn2_{k}')
+        outs = new_outs
     if variant == 'reexpressed':
         # route every output through a double negation (function preserved, more gates)
         new_outs = []
